@@ -27,6 +27,7 @@ RULE = (
     "wrapped-row layout (line width 1..n_e-1); every single header corruption (counts swapped / +-1, range lines exchanged, each "
     "bound shifted by the extent, z-range shifted, each header line missing). After every call the files opened by the function "
     "must be closed. Non-trivial: at least one finite cell; distinct = distinct file text x dtype x source."
+    " Added axes: wrapped rows, eight formatting styles incl. blank lines, three input sources, open-handle counter, regions at projected-coordinate magnitudes, header faults incl. swapped zMin / zMax, also on wrapped bodies."
 )
 ASSUMPTIONS = ["the reference writer follows verde's documented header convention: id / n_northing n_easting / south north / west east / zmin zmax",
                "for the all-blank file (header range undefined) both a correct load and a refusal are accepted"]
